@@ -178,7 +178,10 @@ func spareSlots(v reflect.Value, path string, out map[string]uint64, depth int) 
 	}
 }
 
-// globalsSnapshot fingerprints every package-level variable of the library.
+// globalsSnapshot fingerprints every package-level variable of the library: its visible
+// content under its name, and every slot of spare slice capacity reachable from it under
+// "name+spare..." (a table of shared byte slices that callers append to is written beyond
+// the lengths everybody sees).
 func globalsSnapshot() map[string]uint64 {
 	out := map[string]uint64{}
 	for name, p := range libraryGlobals() {
@@ -186,9 +189,64 @@ func globalsSnapshot() map[string]uint64 {
 		if v.Kind() == reflect.Ptr && !v.IsNil() {
 			f := &fper{seen: map[uintptr]bool{}}
 			out[name] = f.hashValue(0xcbf29ce484222325, v.Elem(), 0)
+			func() {
+				defer func() { recover() }()
+				spareSlotsAll(v.Elem(), name+"+spare", out, 0)
+			}()
 		}
 	}
 	return out
+}
+
+// spareSlotsAll is spareSlots without the restriction to exported fields (package
+// variables are mostly unexported tables).
+func spareSlotsAll(v reflect.Value, path string, out map[string]uint64, depth int) {
+	if depth > 8 {
+		return
+	}
+	switch v.Kind() {
+	case reflect.Slice:
+		if v.IsNil() {
+			return
+		}
+		if v.Cap() > v.Len() {
+			full := v.Slice3(0, v.Cap(), v.Cap())
+			f := &fper{seen: map[uintptr]bool{}}
+			h := uint64(0xcbf29ce484222325)
+			for i := v.Len(); i < v.Cap(); i++ {
+				h = f.hashValue(h, full.Index(i), 0)
+			}
+			out[path] = h
+		}
+		if k := v.Type().Elem().Kind(); k == reflect.Slice || k == reflect.Struct || k == reflect.Ptr || k == reflect.Map || k == reflect.Interface {
+			for i := 0; i < v.Len() && i < 4096; i++ {
+				spareSlotsAll(v.Index(i), fmt.Sprintf("%s[%d]", path, i), out, depth+1)
+			}
+		}
+	case reflect.Array:
+		if k := v.Type().Elem().Kind(); k == reflect.Slice || k == reflect.Struct || k == reflect.Ptr || k == reflect.Map {
+			for i := 0; i < v.Len() && i < 4096; i++ {
+				spareSlotsAll(v.Index(i), fmt.Sprintf("%s[%d]", path, i), out, depth+1)
+			}
+		}
+	case reflect.Struct:
+		if pp := v.Type().PkgPath(); pp == "sync" || pp == "sync/atomic" {
+			return
+		}
+		for i := 0; i < v.NumField(); i++ {
+			spareSlotsAll(v.Field(i), path+"."+v.Type().Field(i).Name, out, depth+1)
+		}
+	case reflect.Ptr, reflect.Interface:
+		if !v.IsNil() {
+			spareSlotsAll(v.Elem(), path+"*", out, depth+1)
+		}
+	case reflect.Map:
+		it := v.MapRange()
+		for it.Next() {
+			f := &fper{seen: map[uintptr]bool{}}
+			spareSlotsAll(it.Value(), fmt.Sprintf("%s{%x}", path, f.hashValue(1, it.Key(), 0)), out, depth+1)
+		}
+	}
 }
 
 // libraryGlobals lists the address of every package-level variable of the library; the
@@ -532,7 +590,7 @@ func runC14(c *Ctx) *Replay {
 	nt := r.Range(2, 4)
 	var tasks []TaskSpec
 	for i := 0; i < nt; i++ {
-		ts := TaskSpec{Op: []string{"generate", "generate", "generate", "validate", "format", "readfile"}[r.Intn(6)], Mask: r.Intn(32), Combined: r.Bool(), MapOrder: drawOrder(r)}
+		ts := TaskSpec{Op: []string{"generate", "generate", "generate", "validate", "format", "format", "readfile"}[r.Intn(7)], Mask: r.Intn(32), Combined: r.Bool(), MapOrder: drawOrder(r)}
 		if r.Bool() {
 			ts.Repeat = r.Range(1, 2)
 		}
